@@ -406,7 +406,29 @@ fn gen_c15(rng: &mut Rng, tier: Tier) -> Case {
 /// C12 worlds: every instance is a nest of the public constructors (within their documented preconditions); each is
 /// subjected to the fault grids of C08/C09, neighbour poison and sub-slice splits (C07), guard-paged calls (C03) and the
 /// DFT reference (C01 clause), while other simulated threads use the same instance.
-fn gen_c12(rng: &mut Rng, tier: Tier, miri: bool) -> Case {
+pub const C12_SYS_QUICK: u64 = 1200;
+
+fn gen_c12(rng: &mut Rng, tier: Tier, miri: bool, index: u64, verif_seed: u64) -> Case {
+    // low run indices: the systematic two-level nests over a small alphabet (all of them in the thorough tier, a
+    // VERIF_SEED-dependent sample in the quick tier)
+    let nests = crate::pools::systematic_nests();
+    let nsys = nests.len() as u64;
+    if !miri && index < if tier.thorough { nsys } else { C12_SYS_QUICK } {
+        let j = if tier.thorough { index } else { (index * 7919 + verif_seed.wrapping_mul(104729)) % nsys };
+        let elem = if j % 2 == 0 { ElemKind::F64 } else { ElemKind::F32 };
+        let mut case = base_case("C12", elem, rng);
+        case.policy = Policy::Seq;
+        case.insts.push(InstDef { spec: nests[j as usize].clone(), dir: if (j / 2) % 2 == 0 { Dir::Fwd } else { Dir::Inv }, from_planner: None });
+        let inst = InstRef::Shared(0);
+        let mut ops = Vec::new();
+        for e in 0..4usize {
+            ops.push(Op::Call { inst, entry: ENTRIES[e], k: 1 + ((j as usize + e) % 3) as u8, input: InputSpec { seed: rng.next(), kind: InputKind::Dense }, scratch_extra: 0, scratch_fill: Fill::NaN, out_fill: Fill::NaN, place: PLACES[(j as usize + e) % 4], dft_ref: true });
+        }
+        ops.push(Op::ShapeGrid { inst, entry: ENTRIES[(j % 4) as usize], kmax: 2, seed: rng.next() });
+        ops.push(Op::ScratchGrid { inst, entry: SCRATCH_ENTRIES[(j % 3) as usize], k: 1 + (j % 2) as u8, input: InputSpec { seed: rng.next(), kind: InputKind::Dense } });
+        case.threads.push(ops);
+        return case;
+    }
     let elem = pick_elem(rng, 8);
     let mut case = base_case("C12", elem, rng);
     let nmax = if miri {
@@ -563,7 +585,7 @@ fn gen_c10(rng: &mut Rng, tier: Tier, index: u64) -> Case {
             if r < 70 {
                 let dir = if (fam || run) && rng.chance(0.8) { fam_dir } else { pick_dir(rng) };
                 ops.push(Op::Plan { planner, len, dir, via: rng.chance(0.3), slot });
-                ops.push(checked_call(rng, slot, 6));
+                ops.push(checked_call(rng, slot, 3));
                 slot += 1;
             } else if r < 88 {
                 ops.push(Op::RoundTrip { planner, len, first: pick_dir(rng), entry: *rng.pick(&ENTRIES), input: InputSpec { seed: rng.next(), kind: InputKind::Dense } });
@@ -572,14 +594,14 @@ fn gen_c10(rng: &mut Rng, tier: Tier, index: u64) -> Case {
                 if slot > 0 {
                     // transforms stay valid after the planner is dropped
                     let s = rng.below(slot as u64) as u16;
-                    ops.push(checked_call(rng, s, 5));
+                    ops.push(checked_call(rng, s, 2));
                 }
             }
         }
         // use the earlier transforms again at the end (after other threads' requests and drops)
         for s in 0..slot {
             if rng.chance(0.5) {
-                ops.push(checked_call(rng, s, 5));
+                ops.push(checked_call(rng, s, 2));
             }
         }
         case.threads.push(ops);
@@ -651,7 +673,7 @@ fn gen_c13(rng: &mut Rng, tier: Tier, index: u64) -> Case {
             ops.push(Op::Plan { planner: 0, len: n as usize, dir, via: n % 2 == 1, slot });
             let s = InstRef::Local(slot);
             ops.push(Op::Call { inst: s, entry: ENTRIES[(n % 4) as usize], k: 1, input: InputSpec { seed: rng.next(), kind: InputKind::Impulse(rng.below(1 << 16) as u32) }, scratch_extra: 0, scratch_fill: Fill::Zero, out_fill: Fill::Zero, place: PLACES[(n % 4) as usize], dft_ref: true });
-            ops.push(Op::Call { inst: s, entry: ENTRIES[((n + 1) % 4) as usize], k: 1 + ((n + walk) % 6) as u8, input: InputSpec { seed: rng.next(), kind: InputKind::Dense }, scratch_extra: 0, scratch_fill: Fill::Zero, out_fill: Fill::Zero, place: PLACES[((n + 2) % 4) as usize], dft_ref: true });
+            ops.push(Op::Call { inst: s, entry: ENTRIES[((n + 1) % 4) as usize], k: 1 + (n % 3) as u8, input: InputSpec { seed: rng.next(), kind: InputKind::Dense }, scratch_extra: 0, scratch_fill: Fill::Zero, out_fill: Fill::Zero, place: PLACES[((n + 2) % 4) as usize], dft_ref: true });
             slot += 1;
         }
     } else {
@@ -672,7 +694,7 @@ fn gen_c13(rng: &mut Rng, tier: Tier, index: u64) -> Case {
                 _ => 3,
             };
             ops.push(Op::Plan { planner, len, dir: pick_dir(rng), via: rng.chance(0.3), slot });
-            ops.push(checked_call(rng, slot, 8));
+            ops.push(checked_call(rng, slot, 3));
             if rng.chance(0.3) {
                 ops.push(Op::BadCall { inst: InstRef::Local(slot), entry: *rng.pick(&ENTRIES), fault: pick_fault(rng), place: pick_place(rng), seed: rng.next() });
             }
@@ -922,7 +944,7 @@ pub fn gen_case(prop: &str, tier: Tier, verif_seed: u64, index: u64, engine_miri
                 };
                 gen_c03(&mut rng, tier, true, fixed)
             }
-            "C12" => gen_c12(&mut rng, tier, true),
+            "C12" => gen_c12(&mut rng, tier, true, index, verif_seed),
             _ => gen_miri_shared(prop, &mut rng, tier, index, verif_seed),
         }
     } else {
@@ -934,7 +956,7 @@ pub fn gen_case(prop: &str, tier: Tier, verif_seed: u64, index: u64, engine_miri
             "C09" => gen_c09(&mut rng, tier),
             "C10" => gen_c10(&mut rng, tier, index),
             "C11" => gen_c11(&mut rng, tier),
-            "C12" => gen_c12(&mut rng, tier, false),
+            "C12" => gen_c12(&mut rng, tier, false, index, verif_seed),
             "C13" => gen_c13(&mut rng, tier, index),
             "C15" => gen_c15(&mut rng, tier),
             _ => panic!("rfsim: no generator for property {}", prop),
